@@ -58,6 +58,9 @@ FIELD_SORTS: dict[str, tuple[tuple, object]] = {
     "opt_get": ((Ref, Cls), Ref),        # the per-class option dictionary stored under it
     "od_has": ((Ref, Str), Bool),        # the option dictionary has this key
     "od_val": ((Ref, Str), Ref),         # its value
+    # nested mapping values (UniverseLaws.edge_whitelist: {type: {type: type}}): deep content and the mutable dict objects they consist of
+    "wl_val": ((Ref,), Ref),             # the (deep) content of a mapping object, as a value
+    "wl_part": ((Ref, Ref), Bool),       # x is a mutable dict object that mapping object o consists of (o itself or an inner dict)
     # nrpickler (C10): ghost trace of the real writes / memoisations performed through a pickler object
     "rtrace": ((Ref,), RSeq),
     # interpreter-global state
